@@ -15,7 +15,7 @@ ASSUMPTIONS = [
 def run(tier, only=None):
     from families import f06
 
-    krs, kinfo = kcollect.run("C06", tier, only, modules=["k_divisions", "k_pqstats", "k_layers"] if tier == "quick" else None)
+    krs, kinfo = kcollect.run("C06", tier, only, modules=["k_divisions", "k_pqstats", "k_layers", "k_setindex"] if tier == "quick" else None)
     progs = f06.programs(tier)
     results, info = pfam.run(progs, prun.check_divisions, only)
     lr, linfo = pfam.run(f06.length_programs(tier), lambda p: prun.check_stage_equiv(p, stages=["simplified-logical", "fused"], validate=1), only)
